@@ -67,7 +67,22 @@ func NewMethodEvaluator(
 	p.SetLastResolvedMethodT(nil)
 
 	if ctx.IsCheckRound() && !ctx.IsLookahead {
-		key := evaluatedObjectT.GetFrame() + evaluatedObjectT.GetObjectClass() + methodIdentifierT.ToString()
+		calleeFrame := evaluatedObjectT.GetFrame()
+		calleeClass := evaluatedObjectT.GetObjectClass()
+
+		// a call without receiver inside a class goes to the method the
+		// class (or an ancestor) defines, not to a top level function
+		if calleeClass == "" && ctx.GetClass() != "" {
+			definedT :=
+				base.GetTopLevelMethodT(ctx.GetFrame(), ctx.GetClass(), methodIdentifierT.ToString())
+
+			if definedT != nil && definedT.DefinedClass != "" {
+				calleeFrame = definedT.DefinedFrame
+				calleeClass = definedT.DefinedClass
+			}
+		}
+
+		key := calleeFrame + calleeClass + methodIdentifierT.ToString()
 		point := p.FileName + ":" + strconv.Itoa(p.ErrorRow)
 
 		callPoint :=
@@ -83,8 +98,8 @@ func NewMethodEvaluator(
 		callerKey := ctx.GetFrame() + ctx.GetClass() + ctx.GetMethod()
 		calleePoint := base.CalleePoint{
 			Point:        point,
-			CalleeFrame:  evaluatedObjectT.GetFrame(),
-			CalleeClass:  evaluatedObjectT.GetObjectClass(),
+			CalleeFrame:  calleeFrame,
+			CalleeClass:  calleeClass,
 			CalleeMethod: methodIdentifierT.ToString(),
 		}
 
